@@ -74,7 +74,7 @@ const quickMult = 8
 
 // thoroughMult scales the thorough tier likewise (a full thorough run of all twenty
 // properties takes about an hour on 16 cores).
-const thoroughMult = 4
+const thoroughMult = 16
 
 // n picks a per-cell case count by tier.
 func nCases(quick, thor int) int {
